@@ -11,7 +11,7 @@ def c08(ctx):
     edges_cc14(ctx)
     res, trace = run_script(ctx, gen.random_plain(ctx.rng, "cc14", ctx.q(60000, 500000)), "random-cc14")
     # the same monitor in its literal, history form (backward scans over the recorded trace)
-    run_script(ctx, gen.random_plain(ctx.rng, "cc14", ctx.q(15000, 100000), seg=300), "random-cc14-history",
+    run_script(ctx, gen.random_plain(ctx.rng, "cc14", ctx.q(15000, 100000), seg=300, bursts=False), "random-cc14-history",
                history=True)
     run_script(ctx, gen.sweep_cc14_values(ctx.rng, step=ctx.q(2, 1)), "value-sweep-cc14")
     # twin-free canary: corrupt one reported value / fabricate one report
@@ -80,7 +80,7 @@ def c11(ctx):
         run_apalache(ctx, "Ind_Pn")
     edges_pn(ctx)
     res, trace = run_script(ctx, gen.random_plain(ctx.rng, "pn", ctx.q(60000, 500000)), "random-pn")
-    run_script(ctx, gen.random_plain(ctx.rng, "pn", ctx.q(12000, 80000), seg=250), "random-pn-history",
+    run_script(ctx, gen.random_plain(ctx.rng, "pn", ctx.q(12000, 80000), seg=250, bursts=False), "random-pn-history",
                history=True)
     run_script(ctx, gen.sweep_pn_values(ctx.rng, "pn", step=ctx.q(3, 1)), "value-sweep-pn")
     canary(ctx, trace, corrupt_out("pn", op=("feed",), need_report=ctx.rng.random() < 0.5))
